@@ -39,6 +39,8 @@ func genC15(cw *caseWriter, seed uint64, tier string) {
 		n = 20000
 	}
 	jsons := []string{`{"a":1}`, `{"a":"x"}`, `{"b":"AQI=","s":5,"new":{"q":1}}`, `{"s":"t","a":2,"p":{"zz":1,"aa":[1]}}`, `{`, `{"a":7,"a":8}`, `{"c_string":1,"c_numeric":"2","c_boolean":1}`, `{}`,
+		// another object for a key that may already hold one (in this row, or in the row it was cloned from)
+		`{"new":{"q":2,"z":[1]},"p":{"zz":5,"k":{"d":1}}}`, `{"new":{"other":true}}`,
 		// rejected after members were stored: a later column fails to convert, truncated, trailing content
 		`{"s":"kept?","new":[1],"a":"x"}`, `{"b":"AQI=","extra":1`, `{"a":3,"s":"u"} trailing`, `{"s":"w","b":"!notbase64"}`}
 	keys := []string{"a", "b", "s", "p", "new", "c_string", "c_numeric", ""}
@@ -75,162 +77,178 @@ func genC15(cw *caseWriter, seed uint64, tier string) {
 			if len(rows) == 0 && k > 4 && k < 11 || len(rows) == 0 && k > 12 {
 				k = 0
 			}
-			switch k {
-			case 13, 14:
-				// a nested mutation in place, through a dotted path into a declared sub-row or a parsed object
-				// only on rows that share nothing below the top level with another row: a nested row reached
-				// through two parents after CreateRow(Row) / CloneRow is shared by design (outside the statement)
-				var cand []int
-				for j := range rows {
-					if !shared[j] {
-						cand = append(cand, j)
+			panOp := guard(func() {
+				switch k {
+				case 13, 14:
+					// a nested mutation in place, through a dotted path into a declared sub-row or a parsed object
+					// only on rows that share nothing below the top level with another row: a nested row reached
+					// through two parents after CreateRow(Row) / CloneRow is shared by design (outside the statement)
+					var cand []int
+					for j := range rows {
+						if !shared[j] {
+							cand = append(cand, j)
+						}
 					}
-				}
-				if len(cand) == 0 {
-					rows = append(rows, t.CreateRowEmpty())
-					op = "ce"
-					break
-				}
-				i := pick(r, cand)
-				path := pick(r, []string{"p.zz", "p.aa", "new.q", "p", "a", "p.zz.x", "s"})
-				v := pick(r, vals)()
-				extForValue(v, ext)
-				op = fmt.Sprintf("iap %d K:%s %s", i, hx([]byte(path)), dynStr(v))
-				if err := rows[i].ImportAtPath(path, v); err != nil {
-					errc = errClass(err)
-				}
-			case 11, 12:
-				js := queue[0]
-				queue = queue[1:]
-				extForJSON([]byte(js), ext)
-				op = "imp " + hxs(js)
-				if !longImp.Import() {
-					errc = "io"
-					break
-				}
-				nr, err := longImp.GetRow()
-				if err != nil {
-					errc = classifyLine(err)
-				} else {
-					rows = append(rows, nr)
-				}
-				// what the same text gives on its own
-				if fr, ferr := t.CreateRow(js); ferr == nil {
-					extForValue(fr, ext)
-					fresh = valStr(fr)
-				} else {
-					fresh = "ERR"
-				}
-			case 0:
-				rows = append(rows, t.CreateRowEmpty())
-				op = "ce"
-			case 1:
-				m := map[string]interface{}{}
-				key := pick(r, keys)
-				v := pick(r, vals)()
-				m[key] = v
-				extForValue(v, ext)
-				op = "cm " + dynStr(m)
-				nr, err := t.CreateRow(m)
-				if err != nil {
-					errc = errClass(err)
-				} else {
-					rows = append(rows, nr)
-				}
-			case 2:
-				sl := []interface{}{}
-				for j := r.intn(4); j > 0; j-- {
+					if len(cand) == 0 {
+						rows = append(rows, t.CreateRowEmpty())
+						op = "ce"
+						break
+					}
+					i := pick(r, cand)
+					path := pick(r, []string{"p.zz", "p.aa", "new.q", "p", "a", "p.zz.x", "s"})
 					v := pick(r, vals)()
 					extForValue(v, ext)
-					sl = append(sl, v)
-				}
-				op = "cs " + dynStr(sl)
-				nr, err := t.CreateRow(sl)
-				if err != nil {
-					errc = errClass(err)
-				} else {
-					rows = append(rows, nr)
-				}
-			case 3:
-				js := pick(r, jsons)
-				extForJSON([]byte(js), ext)
-				op = "cj " + hxs(js)
-				nr, err := t.CreateRow(js)
-				if err != nil {
-					errc = classifyLine(err)
-				} else {
-					rows = append(rows, nr)
-				}
-			case 4:
-				i := pickRow()
-				if i < 0 {
+					op = fmt.Sprintf("iap %d K:%s %s", i, hx([]byte(path)), dynStr(v))
+					if err := rows[i].ImportAtPath(path, v); err != nil {
+						errc = errClass(err)
+					}
+				case 11, 12:
+					js := queue[0]
+					queue = queue[1:]
+					extForJSON([]byte(js), ext)
+					op = "imp " + hxs(js)
+					if !longImp.Import() {
+						errc = "io"
+						break
+					}
+					nr, err := longImp.GetRow()
+					if err != nil {
+						errc = classifyLine(err)
+					} else {
+						rows = append(rows, nr)
+					}
+					// what the same text gives on its own
+					if fr, ferr := t.CreateRow(js); ferr == nil {
+						extForValue(fr, ext)
+						fresh = valStr(fr)
+					} else {
+						fresh = "ERR"
+					}
+				case 0:
 					rows = append(rows, t.CreateRowEmpty())
 					op = "ce"
-					break
-				}
-				op = fmt.Sprintf("cr %d", i)
-				nr, err := t.CreateRow(rows[i])
-				if err != nil {
-					errc = errClass(err)
-				} else {
+				case 1:
+					m := map[string]interface{}{}
+					key := pick(r, keys)
+					v := pick(r, vals)()
+					m[key] = v
+					extForValue(v, ext)
+					op = "cm " + dynStr(m)
+					nr, err := t.CreateRow(m)
+					if err != nil {
+						errc = errClass(err)
+					} else {
+						rows = append(rows, nr)
+					}
+				case 2:
+					sl := []interface{}{}
+					for j := r.intn(4); j > 0; j-- {
+						v := pick(r, vals)()
+						extForValue(v, ext)
+						sl = append(sl, v)
+					}
+					op = "cs " + dynStr(sl)
+					nr, err := t.CreateRow(sl)
+					if err != nil {
+						errc = errClass(err)
+					} else {
+						rows = append(rows, nr)
+					}
+				case 3:
+					js := pick(r, jsons)
+					extForJSON([]byte(js), ext)
+					op = "cj " + hxs(js)
+					nr, err := t.CreateRow(js)
+					if err != nil {
+						errc = classifyLine(err)
+					} else {
+						rows = append(rows, nr)
+					}
+				case 4:
+					i := pickRow()
+					if i < 0 {
+						rows = append(rows, t.CreateRowEmpty())
+						op = "ce"
+						break
+					}
+					op = fmt.Sprintf("cr %d", i)
+					nr, err := t.CreateRow(rows[i])
+					if err != nil {
+						errc = errClass(err)
+					} else {
+						shared[i], shared[len(rows)] = true, true
+						rows = append(rows, nr)
+					}
+				case 5:
+					i := pickRow()
+					js := pick(r, jsons)
+					extForJSON([]byte(js), ext)
+					op = fmt.Sprintf("um %d %s", i, hxs(js))
+					if err := rows[i].UnmarshalJSON([]byte(js)); err != nil {
+						errc = classifyLine(err)
+					}
+				case 6:
+					i := pickRow()
+					key := pick(r, keys)
+					v := pick(r, vals)()
+					extForValue(v, ext)
+					op = fmt.Sprintf("set %d K:%s %s", i, hx([]byte(key)), dynStr(v))
+					rows[i].Set(key, v)
+				case 7:
+					i := pickRow()
+					key := pick(r, keys)
+					v := pick(r, vals)()
+					extForValue(v, ext)
+					op = fmt.Sprintf("iak %d K:%s %s", i, hx([]byte(key)), dynStr(v))
+					if err := rows[i].ImportAtKey(key, v); err != nil {
+						errc = errClass(err)
+					}
+				case 8:
+					i := pickRow()
+					op = fmt.Sprintf("ex %d", i)
+					var out bytes.Buffer
+					if err := t.GetExporter(&out).Export(rows[i]); err != nil {
+						errc = classifyLine(err)
+					}
+				case 9:
+					i := pickRow()
+					op = fmt.Sprintf("cl %d", i)
 					shared[i], shared[len(rows)] = true, true
-					rows = append(rows, nr)
+					rows = append(rows, jsonline.CloneRow(rows[i]))
+				default:
+					js := pick(r, jsons)
+					extForJSON([]byte(js), ext)
+					op = "st " + hxs(js)
+					var out bytes.Buffer
+					imp := t.GetImporter(strings.NewReader(js + "\n"))
+					_ = jsonline.NewStreamer(imp, t.GetExporter(&out)).WithProcessor(jsonline.NoFailureProcessor).Stream()
 				}
-			case 5:
-				i := pickRow()
-				js := pick(r, jsons)
-				extForJSON([]byte(js), ext)
-				op = fmt.Sprintf("um %d %s", i, hxs(js))
-				if err := rows[i].UnmarshalJSON([]byte(js)); err != nil {
-					errc = classifyLine(err)
+			})
+			if panOp != "" {
+				errc = "PANIC in the operation: " + strings.ReplaceAll(strings.ReplaceAll(panOp, "\t", " "), "\n", " ")
+				if op == "" {
+					op = "ce"
 				}
-			case 6:
-				i := pickRow()
-				key := pick(r, keys)
-				v := pick(r, vals)()
-				extForValue(v, ext)
-				op = fmt.Sprintf("set %d K:%s %s", i, hx([]byte(key)), dynStr(v))
-				rows[i].Set(key, v)
-			case 7:
-				i := pickRow()
-				key := pick(r, keys)
-				v := pick(r, vals)()
-				extForValue(v, ext)
-				op = fmt.Sprintf("iak %d K:%s %s", i, hx([]byte(key)), dynStr(v))
-				if err := rows[i].ImportAtKey(key, v); err != nil {
-					errc = errClass(err)
-				}
-			case 8:
-				i := pickRow()
-				op = fmt.Sprintf("ex %d", i)
-				var out bytes.Buffer
-				if err := t.GetExporter(&out).Export(rows[i]); err != nil {
-					errc = classifyLine(err)
-				}
-			case 9:
-				i := pickRow()
-				op = fmt.Sprintf("cl %d", i)
-				shared[i], shared[len(rows)] = true, true
-				rows = append(rows, jsonline.CloneRow(rows[i]))
-			default:
-				js := pick(r, jsons)
-				extForJSON([]byte(js), ext)
-				op = "st " + hxs(js)
-				var out bytes.Buffer
-				imp := t.GetImporter(strings.NewReader(js + "\n"))
-				_ = jsonline.NewStreamer(imp, t.GetExporter(&out)).WithProcessor(jsonline.NoFailureProcessor).Stream()
 			}
-			for _, rr := range rows {
-				extForValue(rr, ext)
-			}
+			guard(func() {
+				for _, rr := range rows {
+					extForValue(rr, ext)
+				}
+			})
 			ops = append(ops, op)
 			var sb strings.Builder
-			sb.WriteString("e=" + errc + " | proto=" + valStr(t.CreateRowEmpty()) + " | ")
-			for i, rr := range rows {
-				if i > 0 {
-					sb.WriteString(" ;; ")
+			if pmsg := guard(func() {
+				sb.WriteString("e=" + errc + " | proto=" + valStr(t.CreateRowEmpty()) + " | ")
+				for i, rr := range rows {
+					if i > 0 {
+						sb.WriteString(" ;; ")
+					}
+					sb.WriteString(valStr(rr))
 				}
-				sb.WriteString(valStr(rr))
+			}); pmsg != "" {
+				// reading the rows back crashed: reported as such (the driver turns it into an oracle failure)
+				sb.Reset()
+				sb.WriteString("e=" + errc + " | PANIC while reading the rows: " + strings.ReplaceAll(strings.ReplaceAll(pmsg, "\t", " "), "\n", " ") + " | none")
 			}
 			if len(rows) == 0 {
 				sb.WriteString("none")
